@@ -115,7 +115,7 @@ class ScriptedAdapter(ScriptAdapter):
     def submit(self, step, path, cwd, job_map=None, env=None):
         k, ok = WORLD.outcome()
         name = step.real_name
-        if WORLD.write_files and os.path.exists(path):
+        if WORLD.write_files and path and os.path.exists(path):
             # the scheduler reads the file it is given, at the moment it is given
             want = step.run["restart"] if _kind(path) == "restart" else step.run["cmd"]
             with open(path) as f:
